@@ -29,6 +29,7 @@ func (e *Exec) execInstr(fr *frame, st *State, in ssa.Instruction) {
 	case *ssa.IndexAddr:
 		base := e.get(st, x.X)
 		idx := e.indexTerm(st, x.Index)
+		idx = e.concretizeIdx(st, idx)
 		switch b := base.(type) {
 		case *Ptr:
 			if b.Obj == 0 {
